@@ -56,6 +56,7 @@ partial def loop (h : IO.FS.Stream) (out : IO.FS.Stream) : IO Unit := do
   if line.isEmpty then return ()
   let l := String.ofList (line.toList.filter (fun c => c != '\n' && c != '\r'))
   out.putStrLn (dispatch l)
+  out.flush          -- the harness watches the answers line by line (a line that takes for ever is identified by it)
   loop h out
 
 def main : IO Unit := do
